@@ -198,10 +198,15 @@ impl Interp {
             _ => None,
         };
         let mut nodes_before = vec![];
+        // parameters that hold a gradient when the optimizer runs (the others must be left exactly as they are)
+        let mut stepped: Vec<usize> = vec![];
         if let Step::Update { params, .. } = s {
             for p in params {
                 if self.m.node_of(*p).grad == GradSlot::Unknown {
                     return Err(HOutcome::Discard("update of a parameter whose gradient is not predictable".into()));
+                }
+                if matches!(self.m.node_of(*p).grad, GradSlot::Known { .. }) {
+                    stepped.push(*p);
                 }
                 nodes_before.push(self.m.handle(*p).node);
             }
@@ -265,8 +270,10 @@ impl Interp {
                 // which parameters get a new array is the optimizer's business (C13): every parameter handle gets a
                 // fresh snapshot; the arrays they held before are judged through the other live handles on them
                 // (no extra clone is taken here: that would change what the optimizer sees as shared storage)
-                let _ = &nodes_before;
-                for p in params {
+                let _ = (&nodes_before, params);
+                // only the parameters that held a gradient: a parameter without one keeps its snapshot, so an optimizer
+                // that writes to it (or swaps it for another parameter's values) is seen
+                for p in &stepped {
                     self.snaps[*p] = self.ex.slots[*p].as_ref().map(snap);
                 }
             }
